@@ -494,7 +494,8 @@ theorem depth_excess_is_emphasis (d : Doc) :
 
 /-- **C02 (walk / render / drop, partial).** For the tree produced by an admissible run the
 recursion of `walk` / `render` / drop is at most `2·N + 2` PLUS the number of nested emphasis
-wrappers — the only part not controlled by the limit (see `emphasis_unbounded`). -/
+wrappers — the part the SKELETON does not control (see `emphasis_unbounded`; the repaired code bounds
+it too: `Props/EmphDepth.lean`). -/
 theorem walk_bounded_up_to_emphasis (s : Sites) (hs : s.raising = true)
     (hi : 2 ≤ s.listOuter + s.listItem) (N : Nat) (d : Doc) (h : Doc.ok s N d = true) :
     callDepth (Rose.walk (Doc.tree d)) ≤ 2 * N + 2 + Doc.emphDepth d := by
@@ -678,7 +679,15 @@ theorem bounded_iff_raising (s : Sites) :
       have := hB d hd
       omega
 
-/-! ## KNOWN FINDING: emphasis is not bounded by the limit -/
+/-! ## Emphasis in the SKELETON is not bounded by the limit (the pre-fix behaviour of the code)
+
+The skeleton's admissible runs put no constraint on emphasis matches.  That was the behaviour of the
+pinned code (a genuine defect, found through the two theorems below and repaired by `fix:` 8078f5b:
+the delimiter matcher now stops at `level + emphasis depth ≥ max_nesting`).  Since the fix the runs of
+the code are a SUBSET of the skeleton's runs, so every upper bound proved above still applies to the
+code, while the two negative theorems below describe the skeleton (= the pre-fix code) only; the
+statement with emphasis counted is proved on the real parser models: `Props/EmphDepth.lean`
+(`inline_emph_depth_bounded`) and `Props/EmphDepthDoc.lean` (`doc_full_depth_bounded`). -/
 
 /-- **C02 — negation witness of the full statement.** For every limit `N ≥ 1` and every bound `B`
 there is an admissible run, made of emphasis matches only, whose tree is deeper than `B`; it needs
@@ -703,13 +712,15 @@ theorem emphasis_unbounded (s : Sites) (N : Nat) (hN : 0 < N) (B : Nat) :
       this, Inl.depthL, Inl.depth]; omega
 
 /-
-  OPEN (FALSE for the code — not provable, kept for the record):
+  FALSE for the skeleton and for the PRE-FIX code (kept for the record; for the repaired code see
+  `Pipeline.doc_full_depth_bounded`):
     theorem depth_bounded : ∃ c₁ c₂, ∀ N d, Doc.ok currentSites N d = true →
         Doc.treeDepth d ≤ c₁ * N + c₂
   Its negation is proved below; the proved part is `depth_bounded_partial`.
 -/
 
-/-- **C02 — the full statement is false**, for the code on disk and for every site table. -/
+/-- **C02 — the full statement is false of the skeleton** (for every site table), i.e. of the code
+    before `fix:` 8078f5b. -/
 theorem full_statement_false (s : Sites) :
     ¬ ∃ c₁ c₂ : Nat, ∀ (N : Nat) (d : Doc), Doc.ok s N d = true → Doc.treeDepth d ≤ c₁ * N + c₂ := by
   rintro ⟨c₁, c₂, h⟩
